@@ -35,6 +35,13 @@ func bigN(g *core.Tape) string {
 	return ns[g.Choose(len(ns))]
 }
 
+// liveLoop repeats op - something whose accounting should balance or grow - for ever while keeping
+// 4000 more bytes alive each time round, and reports the size of what it holds: under limit M the
+// report can never reach M.
+func liveLoop(op string) string {
+	return `local keep, n = {}, 0 while true do ` + op + ` n = n + 1 keep[n] = ("x"):rep(4000) if n % 10 == 0 then emit("len", n * 4000) end end`
+}
+
 var advTemplates = []advTemplate{
 	{"spin", func(g *core.Tape) string { return `while true do end` }},
 	{"spin-goto", func(g *core.Tape) string { return `::a:: goto a` }},
@@ -170,6 +177,71 @@ var advTemplates = []advTemplate{
 	{"tostring-concat-numbers", func(g *core.Tape) string {
 		return `local s = "" for i = 1, ` + bigN(g) + ` do s = s .. i .. 1.5 end return #s`
 	}},
+	{"pattern-balanced-unbalanced", func(g *core.Tape) string {
+		f := []string{"find", "match", "gsub", "gmatch"}[g.Choose(4)]
+		call := `string.` + f + `(s, "%b()"` + map[string]string{"find": ")", "match": ")", "gsub": `, "")`, "gmatch": ")()"}[f]
+		return `local s = ("("):rep(` + bigN(g) + `) return ` + call
+	}},
+	{"pattern-items-big-subject", func(g *core.Tape) string {
+		pat := []string{"%f[%d]", "(a)(b)%1%2c", "[^b]*b", "a-b", ".-.-.-c", "%s*$", "[%w_]+%.[%w_]+"}[g.Choose(7)]
+		return `local s = ("ab "):rep(` + bigN(g) + `) return string.find(s, "` + pat + `")`
+	}},
+	{"sort-comparator", func(g *core.Tape) string {
+		return `local t = {} for i = 1, 300 do t[i] = (i * 7919) % 1000 end table.sort(t, function(a, b) return a < b end)`
+	}},
+	{"sort-comparator-spin", func(g *core.Tape) string {
+		return `table.sort({3, 2, 1}, function(a, b) while true do end end)`
+	}},
+	{"sort-invalid-order", func(g *core.Tape) string {
+		return `local t = {} for i = 1, 500 do t[i] = i % 7 end table.sort(t, function(a, b) return true end)`
+	}},
+	{"sort-metamethod-lt", func(g *core.Tape) string {
+		return `local mt = {__lt = function(a, b) return a.v < b.v end} local t = {} for i = 1, 200 do t[i] = setmetatable({v = (i * 31) % 97}, mt) end table.sort(t)`
+	}},
+	{"pack-fixed-size-padding", func(g *core.Tape) string {
+		opt := []string{"c", "!1c", "<c", "i1c"}[g.Choose(4)]
+		args := `"x"`
+		if opt == "i1c" {
+			args = `1, "x"`
+		}
+		return `return #string.pack("` + opt + `" .. math.tointeger(` + bigN(g) + `), ` + args + `)`
+	}},
+	{"pack-alignment-padding", func(g *core.Tape) string {
+		return `return #string.pack(("!16 i1 Xi16"):rep(` + bigN(g) + `), 1)`
+	}},
+	{"live:coroutine-close-unstarted", func(g *core.Tape) string {
+		return liveLoop(`coroutine.close(coroutine.create(print))`)
+	}},
+	{"live:coroutine-finished", func(g *core.Tape) string {
+		return liveLoop(`local co = coroutine.wrap(function(...) return ... end) co(1, 2, 3)`)
+	}},
+	{"live:coroutine-closed-suspended", func(g *core.Tape) string {
+		return liveLoop(`local co = coroutine.create(function() coroutine.yield() end) coroutine.resume(co) coroutine.close(co)`)
+	}},
+	{"live:coroutine-error", func(g *core.Tape) string {
+		return liveLoop(`local co = coroutine.create(error) coroutine.resume(co, "x")`)
+	}},
+	{"live:load-comment", func(g *core.Tape) string {
+		return `local src = "--" .. ("x"):rep(` + []string{"100", "1e4", "1e5"}[g.Choose(3)] + `) .. "\nreturn 1" ` + liveLoop(`load(src)`)
+	}},
+	{"live:load-syntax-error", func(g *core.Tape) string {
+		return `local src = ("x = 1 "):rep(` + []string{"10", "1e3", "1e4"}[g.Choose(3)] + `) .. " = " ` + liveLoop(`load(src)`)
+	}},
+	{"live:load-function-reader", func(g *core.Tape) string {
+		return liveLoop(`local k = 0 load(function() k = k + 1 if k < 20 then return "local a = 1 " end end)`)
+	}},
+	{"live:pcall-error", func(g *core.Tape) string {
+		return liveLoop(`pcall(error, {}) pcall(string.rep) pcall(select, -1)`)
+	}},
+	{"live:child-context", func(g *core.Tape) string {
+		return liveLoop(`runtime.callcontext({kill = {memory = 60000}}, function() local s = ("y"):rep(30000) end) runtime.callcontext({kill = {memory = 10000}}, function() local s = ("y"):rep(30000) end)`)
+	}},
+	{"live:format-utf8-select", func(g *core.Tape) string {
+		return liveLoop(`local _ = string.format("%5d%s%q", 1, "a", "b") .. utf8.char(65, 0x10FFFF) .. select("#", 1, 2, 3)`)
+	}},
+	{"live:varargs-and-closures", func(g *core.Tape) string {
+		return liveLoop(`local function f(...) local a, b = ... return function() return a, b end end f(1, 2, 3, 4, 5)() (function(...) return select(2, ...) end)(1, 2, 3)`)
+	}},
 	{"gsub-func-spin", func(g *core.Tape) string {
 		return `(("a"):rep(10)):gsub(".", function() while true do end end)`
 	}},
@@ -248,6 +320,19 @@ var exitTemplates = []advTemplate{
 	{"exit:coroutine-close-spin", func(g *core.Tape) string {
 		return `local co = coroutine.create(function() local x <close> = setmetatable({}, {__close = function() while true do end end}) coroutine.yield() end) coroutine.resume(co) coroutine.close(co) while true do end`
 	}},
+	{"exit:killed-child-close-in-parent", func(g *core.Tape) string {
+		lim := []string{"cpu = 300", "memory = 20000"}[g.Choose(2)]
+		spin := []string{`while true do end`, `local s = "x" while true do s = s .. s end`}[g.Choose(2)]
+		inner := `local x <close> = setmetatable({}, {__close = function() emit("after-kill: close handler of a killed context") end}) ` + spin
+		call := `runtime.callcontext({kill = {` + lim + `}}, function() ` + inner + ` end)`
+		if g.Chance(1, 3) {
+			call = `coroutine.wrap(function() ` + call + ` end)()`
+		}
+		return call + ` local function f() return 1 end f() do local y <close> = setmetatable({}, {__close = function() end}) end emit("parent-goes-on") while true do end`
+	}},
+	{"exit:killed-child-gc-in-parent", func(g *core.Tape) string {
+		return `runtime.callcontext({kill = {cpu = 300}}, function() setmetatable({}, {__gc = function() emit("gc-ran") end}) while true do end end) pcall(collectgarbage) local junk = {} for i = 1, 200 do junk[i] = {} end emit("parent-goes-on") while true do end`
+	}},
 	{"exit:xpcall-handler-spin-error", func(g *core.Tape) string {
 		return `xpcall(error, function() while true do end end) while true do end`
 	}},
@@ -295,6 +380,11 @@ func runQuotaAdv(ctx *core.RunCtx) {
 	ctx.Sample = fmt.Sprintf("-- template %s, kill={cpu=%d, memory=%d}\n%s", tpl.name, cpuL, memL, src)
 	var ms0, ms1 runtime.MemStats
 	runtime.ReadMemStats(&ms0)
+	if ms0.HeapAlloc > 24<<20 {
+		// garbage left by earlier runs must not be billed to this one: start from a collected heap
+		runtime.GC()
+		runtime.ReadMemStats(&ms0)
+	}
 	start := time.Now()
 	r := execLimited(src, rt.RuntimeResources{Cpu: cpuL, Memory: memL}, core.ReplayTape(nil), false, nil)
 	wall := time.Since(start)
